@@ -922,6 +922,20 @@ func c11TxOracle(o *vfOut, r *vfRand) {
 				o.Stat("tx.crosschain.other-error")
 			}
 			c11SenderDiff(o, NewChainIDSigner(c2), t2)
+			// the same OBJECT, after its sender was resolved (and cached) under its own chain id: the
+			// cache must not answer for a signer of another chain
+			t4 := c11CopyTx(stx)
+			if f4, e4 := c11Sender(o, signer, t4, op); e4 == nil && f4 == addr {
+				f5, e5 := c11Sender(o, NewChainIDSigner(c2), t4, op)
+				o.Stat("tx.crosschain.cached-object")
+				if e5 == nil {
+					o.Viol("c11-tx-crosschain-accepted-from-sender-cache", fmt.Sprintf("transaction signed for chain %s, sender cached under that chain, then accepted under chain %s (sender %x)", c, c2, f5[:4]))
+				}
+				// and back: the genuine signer still gets the genuine sender
+				if f6, e6 := c11Sender(o, signer, t4, op); e6 != nil || f6 != addr {
+					o.Viol("c11-tx-sender-cache-poisoned", fmt.Sprintf("after a query under chain %s the genuine chain %s signer gets %x, %v", c2, c, f6[:4], e6))
+				}
+			}
 			// relabel V for the other chain: passes the chain check, must recover somebody else
 			t3 := c11CopyTx(stx)
 			t3.data.V = new(big.Int).Add(t3.data.V, new(big.Int).Lsh(new(big.Int).Sub(c2, c), 1))
